@@ -43,7 +43,9 @@ def gen_cases(tier, seed):
                 ("sparse-files", ["--no-perms", "--ownership"], "sparse"), ("many-dirs", [], "dirs"), ("links+specials", ["--ownership"], "nodes"), ("many-sources", [], "sources"),
                 ("tolerated-failures", ["--ownership"], "xattrs"), ("backup-every-file", ["--backup", "numbered"], "mixed"),
                 # a chain of n nested directories with one file each: the walker must not keep one handle per level
-                ("deep-tree", [], "deep"), ("deep-tree-deref", ["-L"], "deep")]
+                ("deep-tree", [], "deep"), ("deep-tree-deref", ["-L"], "deep"),
+                # a refresh of a tree of very many directories with --backup auto (every destination directory is listed)
+                ("backup-auto-many-dirs", ["--backup", "auto"], "dirs"), ("backup-auto-many-dirs-b", ["--backup", "auto"], "dirs")]
     for vi, (vname, extra, content) in enumerate(variants):
         for driver in ("parblock", "parfile"):
             if tier == "quick" and (vi + (driver == "parfile")) % 2:
